@@ -39,6 +39,8 @@ def cmp(B, G, name, out, ref):
     a = B.scalars(out)
     ref = np.asarray(ref, dtype=object)
     G.fact(name + ".shape", tuple(a.shape) == (2,) + tuple(ref.shape), "%s vs %s" % (tuple(a.shape), (2,) + tuple(ref.shape)))
+    if B.is_tensor(out):  # all operands are double precision: so is the result (a float32 buffer would round every entry)
+        G.fact(name + ".dtype", out.dtype == B.torch.double, "result dtype %s" % (out.dtype,))
     if tuple(a.shape) != (2,) + tuple(ref.shape):
         return
     for idx in np.ndindex(*ref.shape):
@@ -51,6 +53,8 @@ def cmp_real(B, G, name, out, ref):
     a = B.scalars(out)
     ref = np.asarray(ref, dtype=object)
     G.fact(name + ".shape", tuple(a.shape) == tuple(ref.shape), "%s vs %s" % (tuple(a.shape), tuple(ref.shape)))
+    if B.is_tensor(out):
+        G.fact(name + ".dtype", out.dtype == B.torch.double, "result dtype %s" % (out.dtype,))
     if tuple(a.shape) != tuple(ref.shape):
         return
     for idx in np.ndindex(*ref.shape):
